@@ -440,13 +440,17 @@ contract(
     note="bounded: ndarray.astype('complex128') is outside the subset",
 )
 
-# `r @ C @ r` (matrix product operator) is outside the subset: full specification r^T C r, checked at run time only
+# `r @ C @ r`: the matrix-product operator is read through pyvc/ext/cdot.py (D4: vector @ matrix and vector @ vector ARE the real
+# products -- assumed, validated numerically at import); proved: the composition is the quadratic form r^T C r, (r^T C) r as the code
+# associates it:  sum_b (sum_a r_a C_ab) r_b
+from pyvc.ext import cdot as _cdot
+_cdot._selfcheck()
+_cdot.enable(FU + "chi_squared_with_noise_covariance_from")
 contract(
-    FU + "chi_squared_with_noise_covariance_from", props=["C08"], mode="bounded",
+    FU + "chi_squared_with_noise_covariance_from", props=["C08"],
     types={"residual_map": "real[1]", "noise_covariance_matrix_inv": "real[2]"}, returns="real", let={"N": "residual_map.shape[0]"},
     requires=["noise_covariance_matrix_inv.shape[0] == N", "noise_covariance_matrix_inv.shape[1] == N"],
-    ensures=["result == sumto(N, lambda a: sumto(N, lambda b: residual_map[a] * noise_covariance_matrix_inv[a, b] * residual_map[b]))"],
-    note="bounded: the @ operator is outside the subset",
+    ensures=["result == sumto(N, lambda b: sumto(N, lambda a: residual_map[a] * noise_covariance_matrix_inv[a, b]) * residual_map[b])"],
 )
 
 
